@@ -245,6 +245,14 @@ package server
 // ---------------------------------------------------------------------------
 // Ownership facts (discharged on the SSA of the package).
 
+// C10: a congestion controller is installed on a connection nowhere but in the branch of
+// ServeHTTP the guards above constrain (an earlier or later installation would make the
+// wire rate differ from the reported one: UseConfigured leaves the controller alone for
+// the default type)
+//@ structural C10: refs congestion.UseBrutal in (*h3sHandler).ServeHTTP
+//@ structural C10: refs congestion.UseConfigured in (*h3sHandler).ServeHTTP
+//@ structural C10: refs congestion.UseBBR in nowhere
+//@ structural C10: calls (*Conn).SetCongestionControl in nowhere
 //@ structural C01: stores h3sHandler.authenticated in (*h3sHandler).ServeHTTP value true
 //@ structural C01: allocs h3sHandler in newH3sHandler
 //@ structural C01: refs newH3sHandler in (*serverImpl).handleClient
